@@ -367,19 +367,10 @@ func drawOps(t *rapid.T) []op {
 		}
 		return o
 	}), 2, 7).Draw(t, "history")
-	// after the removal of the entity only Stop, IsHeartbeatRunning and waiting are meaningful
-	var out []op
-	removed := false
-	for _, o := range raw {
-		if removed && (o.Kind == "start" || o.Kind == "remove") {
-			continue
-		}
-		if o.Kind == "remove" {
-			removed = true
-		}
-		out = append(out, o)
-	}
-	return out
+	// every history is legal: the heartbeat does not depend on the entity being in the device's
+	// list, so it can be started again after RemoveEntity and a second RemoveEntity has to stop it
+	// again ("after stop, or removal of the entity, has returned ... the data stays unchanged")
+	return raw
 }
 
 func TestHeartbeatHistories(t *testing.T) {
@@ -777,6 +768,10 @@ func TestSequentialScenarios(t *testing.T) {
 		{100 * ms, 2, true, []op{stop, stop, w(3), start, w(2), stop, running, start}},
 		{200 * ms, 2, false, []op{w(1), remove, running, stop, w(3)}},
 		{2100 * ms, 1, true, []op{w(3), start, w(2)}},
+		// the heartbeat outlives the entity's membership in the device: started again after the
+		// removal, a second removal has to stop it again
+		{100 * ms, 1, false, []op{w(1), remove, start, w(2), remove, running, w(3)}},
+		{100 * ms, 1, true, []op{remove, w(2), start, w(1), remove, w(2)}},
 	}
 	for _, c := range cases {
 		world.Guard(func() { runHistory(t, c.timeout, c.peers, c.lateAdd, c.ops) })
